@@ -24,18 +24,18 @@ package cluster_info
 //@   modifies queues[*]
 //@   loop 1
 //@     invariant 0 - 1 <= rangeindex && rangeindex < len(queue.ChildQueues)
-//@     invariant forall k in queues :: k in old(queues) && queues[k] == old(queues[k])
+//@     invariant forall k in queues :: old(k in queues) && queues[k] == old(queues[k])
 //@     invariant keyed(queues) && childPar(queues) && childComplete(queues)
 //@     invariant forall m map[common_info.QueueID]*queue_info.QueueInfo :: m != queues && old(allocated(m)) ==> dom(m) == old(dom(m))
 //@     invariant forall m map[common_info.QueueID]*queue_info.QueueInfo, k common_info.QueueID :: m != queues && old(allocated(m)) && old(k in m) ==> m[k] == old(m[k])
 //@     invariant forall j int :: 0 <= j && j <= rangeindex ==> !(queue.ChildQueues[j] in queues)
-//@     invariant forall k in old(queues) :: !(k in queues) ==> old(queues[k]).ParentQueue == queueID || !(old(queues[k]).ParentQueue in queues)
-//@     invariant forall k in queues :: queues[k].ParentQueue in old(queues) && queues[k].ParentQueue != queueID ==> queues[k].ParentQueue in queues
+//@     invariant forall k common_info.QueueID :: old(k in queues) && !(k in queues) ==> old(queues[k]).ParentQueue == queueID || !(old(queues[k]).ParentQueue in queues)
+//@     invariant forall k in queues :: old(queues[k].ParentQueue in queues) && queues[k].ParentQueue != queueID ==> queues[k].ParentQueue in queues
 //@     decreases len(queue.ChildQueues) - rangeindex
 //@   ensures [deleted] !(queueID in queues)
-//@   ensures [onlyDeletes] forall k in queues :: k in old(queues) && queues[k] == old(queues[k])
-//@   ensures [deletedHaveDeletedParent] forall k in old(queues) :: !(k in queues) ==> k == queueID || !(old(queues[k]).ParentQueue in queues)
-//@   ensures [noNewOrphans] forall k in queues :: queues[k].ParentQueue in old(queues) ==> queues[k].ParentQueue in queues
+//@   ensures [onlyDeletes] forall k in queues :: old(k in queues) && queues[k] == old(queues[k])
+//@   ensures [deletedHaveDeletedParent] forall k common_info.QueueID :: old(k in queues) && !(k in queues) ==> k == queueID || !(old(queues[k]).ParentQueue in queues)
+//@   ensures [noNewOrphans] forall k in queues :: old(queues[k].ParentQueue in queues) ==> queues[k].ParentQueue in queues
 //@   ensures [shape] keyed(queues) && childPar(queues) && childComplete(queues)
 //@ end
 
@@ -48,16 +48,16 @@ package cluster_info
 //@   requires keyed(queues) && childPar(queues) && childComplete(queues) && childrenExist(queues)
 //@   modifies queues[*]
 //@   loop 1
-//@     invariant forall k in queues :: k in old(queues) && queues[k] == old(queues[k])
+//@     invariant forall k in queues :: old(k in queues) && queues[k] == old(queues[k])
 //@     invariant keyed(queues) && childPar(queues) && childComplete(queues)
 //@     invariant childrenExist(queues)
 //@     invariant forall m map[common_info.QueueID]*queue_info.QueueInfo :: m != queues && old(allocated(m)) ==> dom(m) == old(dom(m))
 //@     invariant forall m map[common_info.QueueID]*queue_info.QueueInfo, k common_info.QueueID :: m != queues && old(allocated(m)) && old(k in m) ==> m[k] == old(m[k])
 //@     invariant forall k in visited :: k in queues ==> queues[k].ParentQueue == "" || queues[k].ParentQueue in queues
-//@     invariant forall k in old(queues) :: !(k in queues) ==> old(queues[k]).ParentQueue != "" && !(old(queues[k]).ParentQueue in queues)
+//@     invariant forall k common_info.QueueID :: old(k in queues) && !(k in queues) ==> old(queues[k]).ParentQueue != "" && !(old(queues[k]).ParentQueue in queues)
 //@   ensures [parentsPresent] wfParents(queues)
 //@   ensures [childrenPresent] childrenExist(queues)
-//@   ensures [onlyDeletes] forall k in queues :: k in old(queues) && queues[k] == old(queues[k])
-//@   ensures [onlyOrphansPruned] forall k in old(queues) :: !(k in queues) ==> old(queues[k]).ParentQueue != "" && !(old(queues[k]).ParentQueue in queues)
+//@   ensures [onlyDeletes] forall k in queues :: old(k in queues) && queues[k] == old(queues[k])
+//@   ensures [onlyOrphansPruned] forall k common_info.QueueID :: old(k in queues) && !(k in queues) ==> old(queues[k]).ParentQueue != "" && !(old(queues[k]).ParentQueue in queues)
 //@   ensures [shape] keyed(queues) && childPar(queues) && childComplete(queues)
 //@ end
